@@ -39,7 +39,10 @@ def search(repo, verif, props, budget_s=240, max_demos=14):
     demos = demos_for(verif, set(props))[:max_demos]
     if not demos:
         return None
-    lock = open(os.path.join(repo, "Cargo.lock"), "rb").read()
+    lock_path = os.path.join(repo, "Cargo.lock")
+    if not os.path.exists(lock_path):      # Cargo.lock is git-ignored in this repository: a fresh worktree has none
+        lock_path = "/repo/Cargo.lock"
+    lock = open(lock_path, "rb").read()
     d = os.path.join(CACHE_ROOT, hashlib.sha256(lock).hexdigest()[:12])
     os.makedirs(d, exist_ok=True)
     lf = open(os.path.join(d, ".lock"), "w")
